@@ -289,7 +289,9 @@ LEVEL_TEXT = ("Proof: Lean 4 theorems for every name (any byte string: dots, tra
               "python oracle of resolv.conf(5); ares_search/ares_getaddrinfo driven in-process over a virtual UDP server for all outcome "
               "vectors up to length 3 (quick) / 5 (thorough) plus random longer ones, question names and final status compared with "
               "searchWalk/gaiWalk and with the property evaluated directly. The walk through retries, timeouts, TCP and re-entrancy is "
-              "tied by the channel simulator of C01.")
+              "tied by the channel simulator of C01, and proved at the model level: over channel runs from an invariant state the "
+              "channel model's search and getaddrinfo clients are driven by exec exactly through the pure fold that walks these "
+              "candidates (C12b/C12c: search_over_channel, gai_over_channel, causal_of_run).")
 LEVEL_NOTE = ("Trusted: Lean kernel (axioms propext, Classical.choice, Quot.sound only); the hand-written model as far as the streams "
               "exercise it; harness/h_text.c incl. its virtual socket layer; the runner. F1 (candidates longer than 255 bytes) is outside "
               "the outcome-fold model and belongs to C01.")
